@@ -86,9 +86,11 @@ func (c *GenConfig) genOps(r *rng.R, n int, depth int, uniq *int) []Op {
 				ops = append(ops, mk(pick(r, []string{"rw.lock", "rw.unlock", "rw.rlock", "rw.runlock"}), o))
 			}
 		case "wg":
-			switch r.Intn(4) {
+			switch r.Intn(5) {
 			case 0:
 				ops = append(ops, mk("wg.add", o, 1+r.Intn(2)))
+			case 3:
+				ops = append(ops, mk("wg.add", o, -1-r.Intn(3)))
 			case 1:
 				ops = append(ops, mk("wg.add", o, 1), mk("yield", 0), mk("wg.done", o))
 			case 2:
